@@ -203,7 +203,7 @@ C02_State(s) ==
 \*          (C13 does not speak about those; C12 does)
 \* nacc:    position -> number of accruals since its last claim (index resolution allowance)
 GhostInit == [unb |-> <<>>, red |-> <<>>, stall |-> FALSE, dep |-> <<>>, slashed |-> FALSE, k2 |-> NoCoins, stuck |-> NoCoins,
-              ent |-> <<>>, taint |-> {}, nacc |-> <<>>, prevEnd |-> -1, diverged |-> "", zeroed |-> {}, orphans |-> <<>>]
+              ent |-> <<>>, taint |-> {}, nacc |-> <<>>, prevEnd |-> -1, diverged |-> "", zeroed |-> {}, orphans |-> <<>>, eslack |-> <<>>]
 LedgerOfState(s) ==
   LET xs == SortBy(UnbEntries(s), LAMBDA x : <<x[1][1], DelIdx(x[1][2]), x[2]>>)
   IN  [i \in DOMAIN xs |-> [d |-> s.unbQ[xs[i][1]][xs[i][2]].d, v |-> s.unbQ[xs[i][1]][xs[i][2]].v, a |-> s.unbQ[xs[i][1]][xs[i][2]].a,
@@ -275,6 +275,28 @@ EntMid(gh, pre, rec, post) ==
 EntNext(gh, pre, rec, post) ==
   LET cl == Claimers(pre, rec)
       mid == EntMid(gh, pre, rec, post)
+  IN  [k \in DOMAIN post.dels |-> IF k \in DOMAIN mid /\ k \notin cl THEN mid[k] ELSE <<>>]
+\* resolution of the split at the moment of indexing: each asset's staked reward weight is an 18-digit number (absolute error
+\* below 10^-18), so an asset's part of the coins received for v is exact only to coins * (number of assets + 1) / (sum of the
+\* weights * 10^18); an asset whose weight rounds to zero gets nothing.  Kept per position until it claims, like the entitlement
+SlackFor(s, v, coins) ==
+  LET info == Info(s, v)
+      el == PoolEligible(s, info)
+      wgt(a) == RMul(Rat(s.assets[a].weight, ONE), RMul(ValTokRat(s, v, a), Rat("1", s.assets[a].total)))
+      tot == RSumSet(el, wgt)
+      ks == {k \in DOMAIN s.dels : k[2] = v /\ k[3] \in el}
+      sl(rd) == IF IsZero(tot[1]) THEN "0" ELSE BAdd("1", RCeil(RMul(RInt(BMul(coins[rd], BFromInt(Cardinality(el) + 1))), <<tot[2], BMul(tot[1], ONE)>>)))
+  IN  [k \in ks |-> [rd \in DOMAIN coins |-> sl(rd)]]
+EslackMid(gh, pre, rec, post) ==
+  LET at == SettleState(pre, rec)
+      vs == {v \in SettledVals(pre, post) : v \in DOMAIN at.vals /\ ~IsEmptyMap(Info(at, v).dshares) /\ ~PoolWeightless(at, v)}
+      adds == [v \in vs |-> SlackFor(at, v, Withdrawn(pre, post, v))]
+      keys == DOMAIN gh.eslack \cup UNION {DOMAIN adds[v] : v \in vs}
+  IN  [k \in keys |-> LET base == IF k \in DOMAIN gh.eslack THEN gh.eslack[k] ELSE <<>>
+                       IN  IF \E v \in vs : k \in DOMAIN adds[v] THEN CoinsAdd(base, adds[CHOOSE v \in vs : k \in DOMAIN adds[v]][k]) ELSE base]
+EslackNext(gh, pre, rec, post) ==
+  LET cl == Claimers(pre, rec)
+      mid == EslackMid(gh, pre, rec, post)
   IN  [k \in DOMAIN post.dels |-> IF k \in DOMAIN mid /\ k \notin cl THEN mid[k] ELSE <<>>]
 ChargedAssets(pre, rec, post) == IF rec.ev = "EndBlock" THEN {a \in DOMAIN pre.assets \cap DOMAIN post.assets : pre.assets[a].total # post.assets[a].total} ELSE {}
 TaintNext(gh, pre, rec, post) ==
@@ -349,6 +371,7 @@ GhostNext(gh, pre, rec, post, conforms) ==
                                ELSE {}
                   IN  {x \in gh.zeroed \cup fresh : ZeroValued(post, x[1], x[2])},
        orphans |-> OrphansOf(gh, pre, post),
+       eslack |-> EslackNext(gh, pre, rec, post),
        \* lock-step (C18): once the re-imported sibling has diverged through a merged redelegation record (K4) it stays diverged
        diverged |-> IF rec.ev = "ForkImport" THEN ""
                     ELSE IF Len(rec.mirror) = 1 /\ MergedAny(gh.red) /\ ObsView(NormState(rec.mirror[1].post)) # ObsView(post) THEN "K4"
@@ -798,6 +821,8 @@ C13_Step(pre, rec, post, gh) ==
              BSum(cl, LAMBDA k : BAdd("1", BAdd(CeilDiv(BMul(BMul(IF BIsNum(pre.bals[k]) THEN pre.bals[k] ELSE "0", nac(k)), "2"), ONE),
                                                IF IsZero(minW(k)[1]) THEN "0"
                                                ELSE RCeil(RMul(RMul(RSumSet(rds, LAMBDA rd : scaled(k, rd)), RInt(BMul("8", nac(k)))), <<minW(k)[2], BMul(minW(k)[1], ONE)>>))))))
+      smid == EslackMid(gh, pre, rec, post)
+      slackOf(rd) == BSum({k \in cl : k \in DOMAIN smid /\ rd \in DOMAIN smid[k]}, LAMBDA k : smid[k][rd])
       grown == {k \in DOMAIN post.dels : k[3] \in DOMAIN post.assets /\ Started(post.assets[k[3]], post.now)
                                           /\ (k \notin DOMAIN pre.dels \/ BLt(pre.dels[k].shares, post.dels[k].shares))}
   IN  UNION {Check("C13", IsEmptyMap(Pending(pre, k[2])) \/ IsEmptyMap(Pending(post, k[2])) \/ ~HasMod(pre, k[2]),
@@ -805,10 +830,10 @@ C13_Step(pre, rec, post, gh) ==
       \cup
       IF cl = {} \/ cl \cap gh.taint # {} \/ (\E k \in cl : OrphanedTotal(pre, k[3])) THEN {}
       ELSE UNION {
-             Check("C13", RLe(RInt(paid(rd)), RAdd(expected(rd), RInt(res))),
+             Check("C13", RLe(RInt(paid(rd)), RAdd(expected(rd), RInt(BAdd(res, slackOf(rd))))),
                    rec.ev \o " by " \o e.d \o " paid " \o paid(rd) \o " " \o rd \o " in rewards; the positions' accrued entitlement is " \o RFloor(expected(rd)) \o
                    " (rewards that accrued before the stake arrived, or a second claim, must pay nothing)")
-             \cup Check("C13", RLe(RSub(expected(rd), RInt(BAdd(segs, res))), RInt(paid(rd))),
+             \cup Check("C13", RLe(RSub(expected(rd), RInt(BAdd(BAdd(segs, res), slackOf(rd)))), RInt(paid(rd))),
                    rec.ev \o " by " \o e.d \o " paid only " \o paid(rd) \o " " \o rd \o " in rewards; the positions' accrued entitlement is " \o RFloor(expected(rd)))
            : rd \in rds}
 
